@@ -391,8 +391,8 @@ type errIter struct {
 	err error
 }
 
-func (e *errIter) Next() bool        { return false }
-func (e *errIter) Seek([]byte) bool  { return false }
-func (e *errIter) Error() error      { return e.err }
-func (e *errIter) Key() []byte       { return nil }
-func (e *errIter) Value() []byte     { return nil }
+func (e *errIter) Next() bool       { return false }
+func (e *errIter) Seek([]byte) bool { return false }
+func (e *errIter) Error() error     { return e.err }
+func (e *errIter) Key() []byte      { return nil }
+func (e *errIter) Value() []byte    { return nil }
